@@ -684,17 +684,8 @@ class AbstractExcelInPython(ABC):
             .replace('~(.*)', r'\*') \
             .replace('~(.)', r'\?')
 
-        result = re.finditer(find_text, within_text, re.I)
-
-        if result is None:
-            return '#VALUE!'
-
-        find_elem = None
-        for i in result:
-            if i.span(0)[0] + 1 < start_num:
-                continue
-            find_elem = i
-            break
+        # the first occurrence that begins at or after the start (an earlier, longer match must not hide it)
+        find_elem = re.compile(find_text, re.I).search(within_text, start_num - 1)
         # исключаем поиск по regex вроде \d
         if find_elem:
             sequences = find_elem.groups(0)
